@@ -231,7 +231,11 @@ func registerExternals() {
 			return lowerKind(p.evalConcrete(t), types.Int)
 		}
 		st := p.store
-		p.assume(st.And(st.Le(st.Int(uint64(lo), 64, true), t), st.Le(t, st.Int(uint64(hi), 64, true))), "choice range")
+		if lo > hi {
+			panic(pathAbort{kind: "infeasible", msg: "empty choice range"})
+		}
+		// a fresh variable constrained to a non-empty range is always feasible: no query needed
+		p.assertPC(st.And(st.Le(st.Int(uint64(lo), 64, true), t), st.Le(t, st.Int(uint64(hi), 64, true))))
 		v := p.concretize(t, lo, hi)
 		return int(asInt64(v))
 	}
